@@ -120,7 +120,16 @@ VAgg(ev) ==
     IF ilo >= ihi THEN Ok(Rejected(ev[13]) \/ (IsVal(ev[13]) /\ ev[13][2] = <<>>), "outside-chunk-sequence")
     ELSE Ok(IsVal(ev[13]) /\ ev[13][2] = SubSeq(R, ilo + 1, ihi), "chunk-sequence-is-substring") >>)
 
-Verdict(ev) == CASE ev[1] = "twin" -> VTwin(ev) [] ev[1] = "agg" -> VAgg(ev) [] OTHER -> "unknown-op"
+(* ["cwin", cds, frames, ws, we, windows = <<a, b, outcome (codon locations lifted back to the chromosome)>>...] : windowed
+   codon scans of a CDS built on the chunk [ws, we); a window that holds no complete codon may be refused *)
+VCWin(ev) ==
+  LET cdsl == ev[2] cds == <<ev[2], ev[3]>> ws == ev[4] we == ev[5] st == St(cdsl) IN
+  FirstBad([k \in DOMAIN ev[6] |->
+     LET a == ev[6][k][1] b == ev[6][k][2] o == ev[6][k][3]
+         want == WindowCodons(cds, IF a > ws THEN a ELSE ws, IF b < we THEN b ELSE we) IN
+     IF want = <<>> THEN Ok(Rejected(o) \/ (IsVal(o) /\ o[2] = <<>>), "chunk-window-codons:none-expected")
+     ELSE Ok(IsVal(o) /\ CodonLocsAre(o[2], want, st), "chunk-window-codons")])
+Verdict(ev) == CASE ev[1] = "cwin" -> VCWin(ev) [] ev[1] = "twin" -> VTwin(ev) [] ev[1] = "agg" -> VAgg(ev) [] OTHER -> "unknown-op"
 Bad == {i \in DOMAIN Trace : Verdict(Trace[i]) # "ok"}
 ASSUME \A i \in Bad : PrintT(<<"BAD", i, Verdict(Trace[i])>>)
 ASSUME PrintT(<<"DONE", Len(Trace), Cardinality(Bad)>>)
